@@ -15,6 +15,7 @@ UNIT = dict(
         "CustomErrorFn::new": dict(rules=[CLAMP]),
         "CustomErrorFn::clone@Clone": dict(),
         "ChaosConfig::clone@Clone": dict(),
+        "ChaosConfig::create_rng": dict(),
         "ChaosLayer::new": dict(file="chlayer"),
         "ChaosConfigBuilder::new": dict(rules=[("sub", "R6-name", r"\"[^\"]*\"\.to_string\(\)", "vx_wrap()", 1)]),
         "ChaosConfigBuilder::default@Default": dict(),
